@@ -199,6 +199,36 @@ def handle (line : String) : String :=
                 x ++ ":" ++ ",".intercalate (ts.map toString))
               "ok " ++ " ; ".intercalate items
       | _, _, _, _ => "bad-input"
+  | "explaingen" :: f :: n :: flag :: ivs :: sigs =>
+      -- the same run through the functions and the table of visit methods translated from the source (`explainG`);
+      -- per variable the positions and the merged list `interval_union` leaves in `explanations[x]`;
+      -- `ivs` = `spec` runs `explain()` of the assertion (only when violated at 0)
+      let parseIv (s : String) : Option (Int × Int) :=
+        match s.splitOn "-" with
+        | [a, b] => match a.toNat?, b.toNat? with | some x, some y => some ((x : Int), (y : Int)) | _, _ => none
+        | _ => none
+      match parseFormula f, n.toNat?, (if ivs == "spec" then some [] else (words ivs).mapM parseIv), parseEnv sigs with
+      | some φ, some n, some I, some w =>
+          let r := if ivs == "spec" then Py.explainSpecG (sigma w) n φ else Py.explainG (sigma w) n φ I (flag == "1")
+          match r with
+          | .error .rtamt => "err rtamt"
+          | .error _ => "err other"
+          | .ok ex =>
+              let vars := (φ.vars.eraseDups)
+              let items := vars.map (fun x =>
+                let recs : List Ivs := (ex.filter (fun p => p.1 == x)).map (fun p => p.2.map (fun q => (q.1.toNat, q.2.toNat)))
+                let ts := (List.range n).filter (fun t => recs.any (fun I => I.any (fun q => decide (q.1 ≤ t) && decide (t ≤ q.2))))
+                -- `Explanations.__setitem__`: the first record of a name is stored as it is, a later one is merged with
+                -- what is there by `interval_union`
+                let stored : Option Ivs := recs.foldl (fun acc I => match acc with
+                  | none => some I
+                  | some A => some (unionIvs (A ++ I))) none
+                x ++ ":" ++ ",".intercalate (ts.map toString) ++ ":" ++
+                  (match stored with
+                   | some I => " ".intercalate (I.map (fun q => s!"{q.1}-{q.2}"))
+                   | none => "none"))
+              "ok " ++ " ; ".intercalate items
+      | _, _, _, _ => "bad-input"
   | "ia" :: sem :: inputs :: f :: _ =>
       -- the IA predicate override as a formula transformation
       let sm : Option Sem := match sem with
